@@ -306,6 +306,32 @@ pub const UNFILLED: char = '\u{1}';
 /// Stands for the elapsed time written by `time(G)`: `<n> second(s) <m> microseconds `.
 pub const TIMING: char = '\u{2}';
 
+/// Output text with every elapsed-time report of `time(G)` replaced by TIMING, so that two runs of
+/// the engine can be compared with each other (the microseconds differ from run to run).
+pub fn normalise_timing(out: &str) -> String {
+    let mut res = String::new();
+    let mut rest = out;
+    'outer: while !rest.is_empty() {
+        // a report starts at a digit that is not preceded by a digit
+        let mut idx = 0;
+        let bytes = rest.as_bytes();
+        while idx < bytes.len() {
+            if bytes[idx].is_ascii_digit() && (idx == 0 || !bytes[idx - 1].is_ascii_digit()) {
+                if let Some(after) = strip_timing(&rest[idx..]) {
+                    res.push_str(&rest[..idx]);
+                    res.push(TIMING);
+                    rest = after;
+                    continue 'outer;
+                }
+            }
+            idx += 1;
+        }
+        res.push_str(rest);
+        break;
+    }
+    res
+}
+
 fn strip_timing(g: &str) -> Option<&str> {
     let d1 = g.find(|c: char| !c.is_ascii_digit())?;
     if d1 == 0 {
